@@ -21,6 +21,8 @@ Clauses (names used in MONITOR messages):
                5 min, 1 h (a retry fails iff the node is down at that tick): when a retry is due on a node
                that is up, its keys are gone
   dispatch     an entry of a key is only ever found on the node the dispatcher assigns to the key
+  marker       the not-found marker `*` is only ever written into a free slot (SET NX): an entry that is not the
+               marker does not become the marker unless a DEL of its key succeeded in the same operation
 -/
 import GoZero.C06.Model
 namespace GoZero.C06.Spec
@@ -156,6 +158,14 @@ def monStep (c : Cfg) (report : Bool) (m : Mon) (op : Op) (n : Nat) (o : ObsLine
   let wr := writtenKeys m.prev cur
   let misplaced := (cur.filter fun x => x.node ≠ c.place x.key).map fun x =>
     s!"dispatch: entry of key {repr x.key} found on node {x.node}, the dispatcher sends the key to node {c.place x.key}"
+  -- NX: the not-found marker only ever goes into a FREE slot — an entry that is not the marker can become the
+  -- marker only if a DEL of its key on its node succeeded in this very operation (unparsable entry removed)
+  let isRaw : Bool := match op with | .raw .. => true | _ => false
+  -- (`n = 0` marks the concurrent read `ctake`, whose cache commands are not listed)
+  let overwritten := if isRaw || n = 0 then [] else (cur.filter fun x => x.val = .ph && (match m.prev.find (x.node, x.key) with
+      | some old => old.val ≠ .ph && !(o.cmds.any fun r => r.cmd = .del && !r.fail && r.node = x.node && r.keys.contains x.key)
+      | none => false)).map fun x =>
+    s!"marker: the not-found marker replaced an existing entry of key {repr x.key} on node {x.node} (SET NX must leave an occupied slot alone)"
   let firstGetFailed := match o.cmds.head? with
     | some r => r.cmd = .get && r.fail
     | none => false
@@ -260,6 +270,6 @@ def monStep (c : Cfg) (report : Bool) (m : Mon) (op : Op) (n : Nat) (o : ObsLine
                         else some (e.key, .unkeyed)) else none
         | none => none
   ({ db := { m.db with rows := newDb.rows, idx := newDb.idx }, prev := cur, excused := excused', pend := pend' },
-   persistent ++ misplaced ++ r.1, r.2.1)
+   persistent ++ misplaced ++ overwritten ++ r.1, r.2.1)
 
 end GoZero.C06.Spec
